@@ -31,7 +31,9 @@ def main():
             checks = a[i + 1]
         if x == "--tier":
             tier = a[i + 1]
-    wt = "/tmp/mut/%s" % pid
+    root = os.environ.get("MUTROOT", "/tmp/mut")
+    suffix = os.environ.get("MUTSUFFIX", "")
+    wt = "%s/%s" % (root, pid)
     out = "%s/OUT" % wt
     diff = "%s/mut%s.diff" % (out, k)
     demo = "%s/mut%s_demo_test.go" % (out, k)
@@ -96,7 +98,7 @@ def main():
     meta["checks_run"] = {c: {"exit": v["exit"], "signatures": v["signatures"]} for c, v in res.get("checks", {}).items()}
     meta["caught_by"] = sorted(c for c, v in res.get("checks", {}).items() if v["exit"] == 1)
     meta["tier"] = tier
-    sd = "%s/seeded/%s-%s" % (VERIF, pid, k)
+    sd = "%s/seeded/%s-%s%s" % (VERIF, pid, k, suffix)
     os.makedirs(sd, exist_ok=True)
     shutil.copy(diff, sd + "/patch.diff")
     shutil.copy(demo, sd + "/demo_test.go")
